@@ -101,7 +101,8 @@ def all_code_literals(facts, within):
         for n in t["exprs"]:
             s = n.get("str")
             if s:
-                for c in codes_in(s):
+                # a template containing [Ennn], or a bare code literal handed to a reporting helper ("E101")
+                for c in codes_in(s) + ([s] if re.fullmatch(r"E\d{2,4}", s) else []):
                     out.append((c, path, "%s:%s" % (n["sp"]["f"], n["sp"]["l"])))
             sp = n.get("sp")
             if sp and sp.get("mac") and any(m.startswith(("format!", "write!", "writeln!", "$crate::__export::format_args!", "format_args!")) for m in sp["mac"]):
